@@ -25,6 +25,12 @@ def comparator_table(prog, rule=None):
     if len(key) != 1:
         return None, None
     b = prog.body(key[0])
+    if any(callee_name(t_) in prog.fns or callee_name(t_).startswith("std::cmp::Ordering::then") for (_, t_) in b.calls()):
+        # a comparator written over keys computed by private functions of the rank type (`tier()`, `weight()`), combined with
+        # `then_with`: read with those spliced in
+        from . import roles as _roles_c
+        b = _roles_c.ib(prog, key[0])
+    prog._cmp_body = b
     adt = prog.adts[builders.RANK]
     table = {}
     allnames = [v["name"] for v in adt["variants"]]
@@ -100,7 +106,7 @@ def run(ctx):
     if table is None:
         r1.undecidable("cmp", "impl Ord for Rank not found uniquely")
         return
-    b = prog.body(ck)
+    b = getattr(prog, "_cmp_body", None) or prog.body(ck)
     r1.table("leaves", {"%s×%s" % k: "%s:%s" % v[0] for k, v in table.items()})
     dom = [0, 1, 2, 3, 10, 20, 255]
     for va in variants:
